@@ -14,8 +14,8 @@ PROP_ID = 'C01'
 TECHNIQUE = 'runtime post-condition monitor vs exact propagator (60-digit mpmath coefficients, 80-bit recurrence)'
 RULE = ('cases = calls of response_series / nigam_and_jennings_response / AccSignal.response_series on generated records '
         '(14 shape classes incl. impulses, hats, steps, zero-padded, alternating, integer-valued, windows of the shipped '
-        'ground motion; lengths 2..400 quick / up to 20000 thorough; amplitudes 1e-6..1e6; float64/float32/int64/list '
-        'containers) x dt log-uniform [1e-3,1], nice decimals and extreme time bases 1e-9..1e3 x 6 periods per call with T/dt log-uniform over [0.2,2e4] '
+        'ground motion; lengths 2..400 quick / up to 20000 thorough; amplitudes 1e-12..1e12; float64/float32/int64/narrow and unsigned int/list containers, '
+        'strided, negative-stride and read-only views; integer-valued period containers; xi=0 as Python int; positional and keyword calls) x dt log-uniform [1e-3,1], nice decimals and extreme time bases 1e-9..1e3 x 6 periods per call with T/dt log-uniform over [0.2,2e4] '
         'plus pinned {0.2,0.5,1,2,5.9,6,6.1,20,2e4}, optional leading 0 x xi in {0,.02,.05,.2,.5,.9,.99,1-1e-6,1-1e-9,'
         '1-1e-12,U(0,1)}; object-level histories call, mutate values, call again. distinct = digest(record, dt, periods, '
         'xi, entry point); non-trivial = record not identically zero and at least one period > 0.')
@@ -24,9 +24,11 @@ ASSUMPTIONS = ['x87 80-bit long double available (checked at start, inconclusive
                'periods with T/dt outside [0.2, 2e4] and xi outside [0,1) are not judged',
                'NaN-free records']
 MIN_EVALS = {'quick': {'u,v==exact(row)': 4000, 'third-series identity(row)': 4000, 'T=0 row exact': 150,
-                       'object.response_series==exact of current values': 150, 'shape+finite': 700},
+                       'object.response_series==exact of current values': 150, 'shape+finite': 700, 'arguments-unchanged': 900,
+                       'earlier-result-unchanged-by-later-call': 300},
              'thorough': {'u,v==exact(row)': 60000, 'third-series identity(row)': 60000, 'T=0 row exact': 2000,
-                          'object.response_series==exact of current values': 2000, 'shape+finite': 10000}}
+                          'object.response_series==exact of current values': 2000, 'shape+finite': 10000, 'arguments-unchanged': 20000,
+                          'earlier-result-unchanged-by-later-call': 6000}}
 CTX = None
 K1 = 'C01/illcond-rounding'
 EPS = float(np.finfo(float).eps)
@@ -199,7 +201,7 @@ def draw_case(rng, tier):
         r = rng.random()
         n = int(rng.choice([2, 3, 4, 5, 8])) if r < 0.15 else (int(rng.integers(9, 401)) if r < 0.8 else
                                                                 (int(rng.integers(400, 3000)) if r < 0.97 else int(rng.integers(3000, 20001))))
-    x, cls = gen.record(rng, n)
+    x, cls = gen.record(rng, n, wide=True)
     dt = gen.dt(rng, 'log' if rng.random() < 0.6 else 'nice')
     if rng.random() < 0.15:     # extreme time bases (nanoseconds .. kiloseconds): "all dt > 0"
         dt = float(10 ** (rng.uniform(-9, -3) if rng.random() < 0.6 else rng.uniform(0, 3)))
@@ -230,8 +232,22 @@ def run_shard(ctx):
         x, cls, dt, periods, xi = draw_case(rng, ctx.tier)
         entry = int(rng.integers(3))
         cont, ck = gen.container(rng, x, kinds=('f64', 'f64', 'f64', 'f32', 'i64', 'list'))
+        r = rng.random()
+        if r < 0.06:
+            cont, ck = gen.narrow_int(rng, len(x))
+        elif r < 0.14:
+            cont, ck = gen.view_form(rng, np.array(x, dtype=float))
         pk = int(rng.integers(3))
         pcont = [periods, list(periods), tuple(periods)][pk]
+        if rng.random() < 0.06:      # integer-valued period container (leading 0 kept), step chosen to keep T/dt in range
+            dt = float(rng.choice([0.01, 0.02, 0.05, 0.1, 0.25]))
+            ip = sorted(set(int(t) for t in rng.integers(1, 8, size=4)))
+            periods = np.array(([0] if rng.random() < 0.6 else []) + ip, dtype=float)
+            pcont = [[int(t) for t in periods], tuple(int(t) for t in periods), periods.astype(np.int64)][pk]
+        xi_arg = xi
+        if xi == 0.0 and rng.random() < 0.5:
+            xi_arg = 0                   # the lower end of the damping range passed as a Python int
+        before = (core.digest(np.asarray(cont)), core.digest(np.asarray(pcont)))
         nontriv = bool(np.any(np.asarray(cont, dtype=float) != 0)) and bool(np.any(periods > 0))
         ctx.case(core.digest(np.asarray(cont, dtype=float), dt, periods, xi, entry), nontrivial=nontriv,
                  cls='%s/%s' % (cls, ck),
@@ -239,12 +255,20 @@ def run_shard(ctx):
                          'class': cls, 'container': ck, 'n': len(x), 'dt': dt, 'T/dt': periods / dt, 'xi': xi})
         try:
             if entry == 0:
-                eqsig.sdof.response_series(cont, dt, pcont, xi)
+                if rng.random() < 0.5:
+                    res = eqsig.sdof.response_series(cont, dt, pcont, xi_arg)
+                else:
+                    res = eqsig.sdof.response_series(motion=cont, dt=dt, periods=pcont, xi=xi_arg)
+                recheck_previous(ctx, res, cont, dt, periods, xi)
             elif entry == 1:
-                eqsig.sdof.nigam_and_jennings_response(cont, dt, pcont, xi)
+                res = eqsig.sdof.nigam_and_jennings_response(cont, dt, pcont, xi_arg)
+                recheck_previous(ctx, res, cont, dt, periods, xi)
             else:
                 asig = eqsig.AccSignal(cont, dt)
-                asig.response_series(response_times=pcont, xi=xi)
+                if rng.random() < 0.5:
+                    asig.response_series(response_times=pcont, xi=xi_arg)
+                else:
+                    asig.response_series(pcont, xi_arg)
                 # history: change the values through the public API, call again (with and without passing periods)
                 k = int(rng.integers(5))
                 if k == 0:
@@ -266,7 +290,24 @@ def run_shard(ctx):
                     asig.response_series()       # default xi
         except Exception as e:
             ctx.exception('shape+finite', _wit(cont, dt, periods, xi, ['response_series', 'nj', 'object'][entry]), e)
+        ctx.check((core.digest(np.asarray(cont)), core.digest(np.asarray(pcont))) == before, 'arguments-unchanged',
+                  lambda: _wit(cont, dt, periods, xi, 'purity'), 'record or period container modified by the call')
     ctx.note('monitored_calls', dict(attach.CALLS))
+
+
+_PREV = {}
+
+
+def recheck_previous(ctx, res, cont, dt, periods, xi):
+    """Process-wide state: the result of the PREVIOUS call must still be what it was when it was returned (a result that is a
+    view of a module-level scratch buffer changes when the next record of the same shape is processed)."""
+    prev = _PREV.get('last')
+    if prev is not None:
+        arrays, dig, wit = prev
+        ctx.check(core.digest(*arrays) == dig, 'earlier-result-unchanged-by-later-call', lambda: wit,
+                  'the arrays returned by an earlier call changed after a later call')
+    arrays = [np.asarray(r) for r in res]
+    _PREV['last'] = (arrays, core.digest(*arrays), _wit(cont, dt, periods, xi, 'previous-result'))
 
 
 def replay(w):
